@@ -115,9 +115,11 @@ def find_islands(im, bkg, rms,
         if np.any((snr[xmin:xmax, ymin:ymax] > seed_clip) & own):
             # obey region constraint
             if region is not None:
-                y, x = np.where(snr[xmin:xmax, ymin:ymax] >= flood_clip)
+                # np.where gives (axis 0, axis 1) offsets of this island's
+                # pixels; FITS pixel coordinates are (axis 1, axis 0)
+                x, y = np.where(own)
                 yx = list(zip(y + ymin, x + xmin))
-                ra, dec = wcs.wcs.wcs_pix2world(yx, 1).transpose()
+                ra, dec = wcs.wcs.wcs_pix2world(yx, 0).transpose()
                 mask = region.sky_within(ra, dec, degin=True)
                 if not np.any(mask):
                     continue
